@@ -12,7 +12,22 @@ SRC = os.environ.get("GOODWE_SRC", "/repo")
 sys.dont_write_bytecode = True
 if sys.path[0] != SRC:
     sys.path.insert(0, SRC)
-logging.disable(logging.CRITICAL)
+# Logging is part of the environment: the library is explored with its debug logging ENABLED (records are thrown away by
+# a null handler), so that lazily formatted arguments and `isEnabledFor(DEBUG)` branches run; selected stages are repeated
+# with logging at its default level (set_debug_logging(False)).
+_LOG = logging.getLogger('goodwe')
+_LOG.addHandler(logging.NullHandler())
+_LOG.propagate = False
+for _n in ('asyncio',):
+    logging.getLogger(_n).addHandler(logging.NullHandler())
+    logging.getLogger(_n).propagate = False
+
+
+def set_debug_logging(on: bool) -> None:
+    _LOG.setLevel(logging.DEBUG if on else logging.WARNING)
+
+
+set_debug_logging(os.environ.get('MC_DEBUG_LOGGING', '1') != '0')
 
 import goodwe  # noqa: E402
 import goodwe.protocol as gp  # noqa: E402
